@@ -145,7 +145,7 @@ func runC17(c *Ctx) error {
 		// ---- map input, []map input
 		{
 			p := randWG(r)
-			rules := map[string]string{"x": "either=1", "y": "either=1", "a": "botheq=2", "b": "botheq=2"}
+			rules := map[string]string{"x": "either=1", "y": "either=1", "a": "botheq=1", "b": "botheq=1"}
 			mk := func(p wgPattern) map[string]interface{} { return nil }
 			_ = mk
 			// string-valued either group and int-valued botheq group live in two maps of concrete element type
@@ -178,7 +178,7 @@ func runC17(c *Ctx) error {
 		// ---- URL input
 		{
 			p := randWG(r)
-			rules := map[string]string{"x": "either=1", "y": "either=1", "a": "botheq=2", "b": "botheq=2"}
+			rules := map[string]string{"x": "either=1", "y": "either=1", "a": "botheq=1", "b": "botheq=1"}
 			q := []string{"x=" + p.x, "y=" + p.y, fmt.Sprintf("a=%d", p.a), fmt.Sprintf("b=%d", p.b)}
 			// any order
 			for j := len(q) - 1; j > 0; j-- {
